@@ -51,6 +51,9 @@ class Prop(PropBase):
                 n *= d
             def val():
                 t = rng.random()
+                if t < 0.08:
+                    # a tiny but non-zero shift (|df| below 1e-8 of the sample rate): still a shift — its edge bin is emptied
+                    return rng.choice([1, -1]) * N * 10 ** rng.uniform(-13, -8.2)
                 if t < 0.5:
                     return float(rng.choice([0, 1, -1, 2, -3, N - 1, -(N - 1), N, -N, N + 2, -(2 * N), 0.5, -0.5]))
                 return round(rng.uniform(-N - 2, N + 2), 3)
